@@ -23,7 +23,7 @@
 #include <gmssl/asn1.h>
 
 #ifdef VERIF_CBMC
-#define DER_RD_REQ(in, inlen)  (W_OK(in, sizeof(*(in))) && W_OK(inlen, sizeof(*(inlen))) && *(in) != NULL && R_OK(*(in), *(inlen)) \
+#define DER_RD_REQ(in, inlen)  (WR_OK(in, sizeof(*(in))) && WR_OK(inlen, sizeof(*(inlen))) && *(in) != NULL && RD_OK(*(in), *(inlen)) \
                                 && *(inlen) <= (size_t)INT_MAX)
 /* the new window start is defined constructively (pointer_in_range) and then pinned: a havocked pointer that is only
    constrained by an equality dereferences to an unconstrained value in CBMC (measured) */
@@ -36,8 +36,8 @@
 /* size of a DER length field — X.690 8.1.3, definite form, minimal octets */
 #define DER_LEN_SZ(len)  ((size_t)1 + (size_t)((len) >= 128) + (size_t)((len) >= 256) + (size_t)((len) >= 65536) + (size_t)((len) >= 16777216))
 #define DER_TLV_SZ(len)  (1 + DER_LEN_SZ(len) + (size_t)(len))
-#define DER_WR_REQ(out, outlen, need) (W_OK(outlen, sizeof(*(outlen))) && \
-	((out) == NULL || (W_OK(out, sizeof(*(out))) && (*(out) == NULL || W_OK(*(out), (need))))))
+#define DER_WR_REQ(out, outlen, need) (WR_OK(outlen, sizeof(*(outlen))) && \
+	((out) == NULL || (WR_OK(out, sizeof(*(out))) && (*(out) == NULL || WR_OK(*(out), (need))))))
 #define DER_WR_FRAME(out, outlen, need) *(outlen), *(out), OBJ_UPTO(*(out), (need))
 #define DER_WR_ADV(out, outlen, need) (*(outlen) == OLD(*(outlen)) + (need) && \
 	((out) == NULL || (OLD(*(out)) == NULL ? *(out) == NULL : (PTR_IN(OLD(*(out)), *(out), OLD(*(out)) + (need)) && *(out) == OLD(*(out)) + (need)))))
@@ -58,7 +58,7 @@ ENSURES(RET != 1 IMPLIES DER_WR_SAME(out, outlen))
 ;
 
 int asn1_length_from_der(size_t *len, const uint8_t **in, size_t *inlen)
-REQUIRES(W_OK(len, sizeof(*len)) && DER_RD_REQ(in, inlen))
+REQUIRES(WR_OK(len, sizeof(*len)) && DER_RD_REQ(in, inlen))
 ASSIGNS(*len, *in, *inlen)
 ENSURES(RET == 1 || RET == -1 || RET == -2)
 ENSURES(RET == 1 IMPLIES DER_RD_ADV(in, inlen))
@@ -77,7 +77,7 @@ ENSURES(DER_WR_ADV(out, outlen, 1 + DER_LEN_SZ(dlen)))
 ;
 
 int asn1_type_to_der(int tag, const uint8_t *d, size_t dlen, uint8_t **out, size_t *outlen)
-REQUIRES(dlen <= (size_t)INT_MAX - 8 && (d == NULL || R_OK(d, dlen)) && DER_WR_REQ(out, outlen, DER_TLV_SZ(dlen)))
+REQUIRES(dlen <= (size_t)INT_MAX - 8 && (d == NULL || RD_OK(d, dlen)) && DER_WR_REQ(out, outlen, DER_TLV_SZ(dlen)))
 REQUIRES(d == NULL || out == NULL || *out == NULL || SEPARATE(d, *out))
 ASSIGNS(*outlen; out != NULL: *out; out != NULL && *out != NULL: OBJ_UPTO(*out, DER_TLV_SZ(dlen)))
 ENSURES(RET == 1 || RET == 0 || RET == -1)
@@ -88,7 +88,7 @@ ENSURES(RET != 1 IMPLIES DER_WR_SAME(out, outlen))
 ;
 
 int asn1_type_from_der(int tag, const uint8_t **d, size_t *dlen, const uint8_t **in, size_t *inlen)
-REQUIRES(W_OK(d, sizeof(*d)) && W_OK(dlen, sizeof(*dlen)) && DER_RD_REQ(in, inlen))
+REQUIRES(WR_OK(d, sizeof(*d)) && WR_OK(dlen, sizeof(*dlen)) && DER_RD_REQ(in, inlen))
 ASSIGNS(*d, *dlen, *in, *inlen)
 ENSURES(RET == 1 || RET == 0 || RET == -1)
 ENSURES(RET == 0 IMPLIES DER_RD_SAME(in, inlen) && *d == NULL && *dlen == 0)
@@ -96,7 +96,7 @@ ENSURES(RET == 1 IMPLIES DER_RD_ADV(in, inlen) && *dlen <= DER_CONSUMED(inlen) &
 ;
 
 int asn1_nonempty_type_from_der(int tag, const uint8_t **d, size_t *dlen, const uint8_t **in, size_t *inlen)
-REQUIRES(W_OK(d, sizeof(*d)) && W_OK(dlen, sizeof(*dlen)) && DER_RD_REQ(in, inlen))
+REQUIRES(WR_OK(d, sizeof(*d)) && WR_OK(dlen, sizeof(*dlen)) && DER_RD_REQ(in, inlen))
 ASSIGNS(*d, *dlen, *in, *inlen)
 ENSURES(RET == 1 || RET == 0 || RET == -1)
 ENSURES(RET == 0 IMPLIES DER_RD_SAME(in, inlen) && *d == NULL && *dlen == 0)
@@ -104,7 +104,7 @@ ENSURES(RET == 1 IMPLIES DER_RD_ADV(in, inlen) && *dlen > 0 && *dlen <= DER_CONS
 ;
 
 int asn1_nonempty_type_to_der(int tag, const uint8_t *d, size_t dlen, uint8_t **out, size_t *outlen)
-REQUIRES(dlen <= (size_t)INT_MAX - 8 && (d == NULL || R_OK(d, dlen)) && DER_WR_REQ(out, outlen, DER_TLV_SZ(dlen)))
+REQUIRES(dlen <= (size_t)INT_MAX - 8 && (d == NULL || RD_OK(d, dlen)) && DER_WR_REQ(out, outlen, DER_TLV_SZ(dlen)))
 REQUIRES(d == NULL || out == NULL || *out == NULL || SEPARATE(d, *out))
 ASSIGNS(*outlen; out != NULL: *out; out != NULL && *out != NULL: OBJ_UPTO(*out, DER_TLV_SZ(dlen)))
 ENSURES(RET == 1 || RET == 0 || RET == -1)
@@ -114,7 +114,7 @@ ENSURES(RET != 1 IMPLIES DER_WR_SAME(out, outlen))
 ;
 
 int asn1_any_type_from_der(int *tag, const uint8_t **d, size_t *dlen, const uint8_t **in, size_t *inlen)
-REQUIRES(W_OK(tag, sizeof(*tag)) && W_OK(d, sizeof(*d)) && W_OK(dlen, sizeof(*dlen)) && DER_RD_REQ(in, inlen))
+REQUIRES(WR_OK(tag, sizeof(*tag)) && WR_OK(d, sizeof(*d)) && WR_OK(dlen, sizeof(*dlen)) && DER_RD_REQ(in, inlen))
 ASSIGNS(*tag, *d, *dlen, *in, *inlen)
 ENSURES(RET == 1 || RET == 0 || RET == -1)
 ENSURES(RET == 0 IMPLIES DER_RD_SAME(in, inlen) && *d == NULL && *dlen == 0 && OLD(*inlen) == 0)
@@ -123,7 +123,7 @@ ENSURES(RET == 1 IMPLIES DER_RD_ADV(in, inlen) && *dlen <= DER_CONSUMED(inlen) &
 ;
 
 int asn1_any_from_der(const uint8_t **a, size_t *alen, const uint8_t **in, size_t *inlen)
-REQUIRES(W_OK(a, sizeof(*a)) && W_OK(alen, sizeof(*alen)) && DER_RD_REQ(in, inlen))
+REQUIRES(WR_OK(a, sizeof(*a)) && WR_OK(alen, sizeof(*alen)) && DER_RD_REQ(in, inlen))
 ASSIGNS(*a, *alen, *in, *inlen)
 ENSURES(RET == 1 || RET == 0 || RET == -1)
 ENSURES(RET == 0 IMPLIES DER_RD_SAME(in, inlen))
@@ -141,7 +141,7 @@ ENSURES(RET != 1 IMPLIES DER_WR_SAME(out, outlen))
 ;
 
 int asn1_boolean_from_der_ex(int tag, int *val, const uint8_t **in, size_t *inlen)
-REQUIRES(W_OK(val, sizeof(*val)) && DER_RD_REQ(in, inlen))
+REQUIRES(WR_OK(val, sizeof(*val)) && DER_RD_REQ(in, inlen))
 ASSIGNS(*val, *in, *inlen)
 ENSURES(RET == 1 || RET == 0 || RET == -1)
 ENSURES(RET == 0 IMPLIES DER_RD_SAME(in, inlen) && *val == -1)
@@ -150,7 +150,7 @@ ENSURES(RET == 1 IMPLIES DER_RD_ADV(in, inlen) && DER_CONSUMED(inlen) == 3 && (*
 
 /* ------------------------------------------------------------------ INTEGER (non-negative, big-endian magnitude) */
 int asn1_integer_from_der_ex(int tag, const uint8_t **a, size_t *alen, const uint8_t **in, size_t *inlen)
-REQUIRES(W_OK(a, sizeof(*a)) && W_OK(alen, sizeof(*alen)) && DER_RD_REQ(in, inlen))
+REQUIRES(WR_OK(a, sizeof(*a)) && WR_OK(alen, sizeof(*alen)) && DER_RD_REQ(in, inlen))
 ASSIGNS(*a, *alen, *in, *inlen)
 ENSURES(RET == 1 || RET == 0 || RET == -1)
 ENSURES(RET == 0 IMPLIES DER_RD_SAME(in, inlen) && *a == NULL && *alen == 0)
@@ -163,7 +163,7 @@ ENSURES(RET == 1 IMPLIES (DER_CONSUMED(inlen) == DER_TLV_SZ(*alen + (((*a)[0] & 
 ;
 
 int asn1_integer_to_der_ex(int tag, const uint8_t *a, size_t alen, uint8_t **out, size_t *outlen)
-REQUIRES(alen <= (size_t)INT_MAX - 8 && (a == NULL || (alen >= 1 && R_OK(a, alen))) && DER_WR_REQ(out, outlen, DER_TLV_SZ(alen + 1)))
+REQUIRES(alen <= (size_t)INT_MAX - 8 && (a == NULL || (alen >= 1 && RD_OK(a, alen))) && DER_WR_REQ(out, outlen, DER_TLV_SZ(alen + 1)))
 REQUIRES(a == NULL || out == NULL || *out == NULL || SEPARATE(a, *out))
 ASSIGNS(*outlen; out != NULL: *out; out != NULL && *out != NULL: OBJ_UPTO(*out, DER_TLV_SZ(alen + 1)))
 ENSURES(RET == 1 || RET == 0 || RET == -1)
@@ -174,7 +174,7 @@ ENSURES(RET != 1 IMPLIES DER_WR_SAME(out, outlen))
 ;
 
 int asn1_int_from_der_ex(int tag, int *a, const uint8_t **in, size_t *inlen)
-REQUIRES(W_OK(a, sizeof(*a)) && DER_RD_REQ(in, inlen))
+REQUIRES(WR_OK(a, sizeof(*a)) && DER_RD_REQ(in, inlen))
 ASSIGNS(*a, *in, *inlen)
 ENSURES(RET == 1 || RET == 0 || RET == -1)
 ENSURES(RET == 0 IMPLIES DER_RD_SAME(in, inlen) && *a == -1)
@@ -193,7 +193,7 @@ ENSURES(RET != 1 IMPLIES DER_WR_SAME(out, outlen))
 
 /* ------------------------------------------------------------------ BIT STRING */
 int asn1_bit_string_from_der_ex(int tag, const uint8_t **bits, size_t *nbits, const uint8_t **in, size_t *inlen)
-REQUIRES(W_OK(bits, sizeof(*bits)) && W_OK(nbits, sizeof(*nbits)) && DER_RD_REQ(in, inlen))
+REQUIRES(WR_OK(bits, sizeof(*bits)) && WR_OK(nbits, sizeof(*nbits)) && DER_RD_REQ(in, inlen))
 ASSIGNS(*bits, *nbits, *in, *inlen)
 ENSURES(RET == 1 || RET == 0 || RET == -1)
 ENSURES(RET == 0 IMPLIES DER_RD_SAME(in, inlen) && *bits == NULL && *nbits == 0)
@@ -202,7 +202,7 @@ ENSURES(RET == 1 IMPLIES DER_RD_ADV(in, inlen) && *nbits >= 1
 ;
 
 int asn1_bit_octets_from_der_ex(int tag, const uint8_t **octs, size_t *nocts, const uint8_t **in, size_t *inlen)
-REQUIRES(W_OK(octs, sizeof(*octs)) && W_OK(nocts, sizeof(*nocts)) && DER_RD_REQ(in, inlen))
+REQUIRES(WR_OK(octs, sizeof(*octs)) && WR_OK(nocts, sizeof(*nocts)) && DER_RD_REQ(in, inlen))
 ASSIGNS(*octs, *nocts, *in, *inlen)
 ENSURES(RET == 1 || RET == 0 || RET == -1)
 ENSURES(RET == 0 IMPLIES DER_RD_SAME(in, inlen) && *octs == NULL && *nocts == 0)
@@ -211,7 +211,7 @@ ENSURES(RET == 1 IMPLIES DER_RD_ADV(in, inlen) && *nocts >= 1
 ;
 
 int asn1_bit_string_to_der_ex(int tag, const uint8_t *bits, size_t nbits, uint8_t **out, size_t *outlen)
-REQUIRES(nbits <= ((size_t)INT_MAX - 16) && (bits == NULL || R_OK(bits, (nbits + 7) / 8)) && DER_WR_REQ(out, outlen, DER_TLV_SZ((nbits + 7) / 8 + 1)))
+REQUIRES(nbits <= ((size_t)INT_MAX - 16) && (bits == NULL || RD_OK(bits, (nbits + 7) / 8)) && DER_WR_REQ(out, outlen, DER_TLV_SZ((nbits + 7) / 8 + 1)))
 REQUIRES(bits == NULL || out == NULL || *out == NULL || SEPARATE(bits, *out))
 ASSIGNS(*outlen; out != NULL: *out; out != NULL && *out != NULL: OBJ_UPTO(*out, DER_TLV_SZ((nbits + 7) / 8 + 1)))
 ENSURES(RET == 1 || RET == 0 || RET == -1)
@@ -221,7 +221,7 @@ ENSURES(RET != 1 IMPLIES DER_WR_SAME(out, outlen))
 ;
 
 int asn1_bit_octets_to_der_ex(int tag, const uint8_t *octs, size_t nocts, uint8_t **out, size_t *outlen)
-REQUIRES(nocts <= ((size_t)INT_MAX - 16) / 8 && (octs == NULL || R_OK(octs, nocts)) && DER_WR_REQ(out, outlen, DER_TLV_SZ(nocts + 1)))
+REQUIRES(nocts <= ((size_t)INT_MAX - 16) / 8 && (octs == NULL || RD_OK(octs, nocts)) && DER_WR_REQ(out, outlen, DER_TLV_SZ(nocts + 1)))
 REQUIRES(octs == NULL || out == NULL || *out == NULL || SEPARATE(octs, *out))
 ASSIGNS(*outlen; out != NULL: *out; out != NULL && *out != NULL: OBJ_UPTO(*out, DER_TLV_SZ(nocts + 1)))
 ENSURES(RET == 1 || RET == 0 || RET == -1)
@@ -231,7 +231,7 @@ ENSURES(RET != 1 IMPLIES DER_WR_SAME(out, outlen))
 ;
 
 int asn1_bits_from_der_ex(int tag, int *bits, const uint8_t **in, size_t *inlen)
-REQUIRES(W_OK(bits, sizeof(*bits)) && DER_RD_REQ(in, inlen))
+REQUIRES(WR_OK(bits, sizeof(*bits)) && DER_RD_REQ(in, inlen))
 ASSIGNS(*bits, *in, *inlen)
 ENSURES(RET == 1 || RET == 0 || RET == -1)
 ENSURES(RET == 0 IMPLIES DER_RD_SAME(in, inlen) && *bits == -1)
@@ -269,7 +269,7 @@ ENSURES(RET == 1 IMPLIES DER_RD_ADV(in, inlen) && DER_CONSUMED(inlen) == 2)
 #define OID_B128_SZ(a) ((size_t)1 + (size_t)((a) >= 128u) + (size_t)((a) >= 16384u) + (size_t)((a) >= 2097152u) + (size_t)((a) >= 268435456u))
 #endif
 static void asn1_oid_node_to_base128(uint32_t a, uint8_t **out, size_t *outlen)
-REQUIRES(W_OK(outlen, sizeof(*outlen)) && W_OK(out, sizeof(*out)) && (*out == NULL || W_OK(*out, OID_B128_SZ(a))))
+REQUIRES(WR_OK(outlen, sizeof(*outlen)) && WR_OK(out, sizeof(*out)) && (*out == NULL || WR_OK(*out, OID_B128_SZ(a))))
 ASSIGNS(*outlen, *out; *out != NULL: OBJ_UPTO(*out, OID_B128_SZ(a)))
 ENSURES(*outlen == OLD(*outlen) + OID_B128_SZ(a))
 ENSURES(OLD(*out) == NULL ? *out == NULL : (PTR_IN(OLD(*out), *out, OLD(*out) + OID_B128_SZ(a)) && *out == OLD(*out) + OID_B128_SZ(a)))
@@ -277,16 +277,16 @@ ENSURES(OLD(*out) == NULL ? *out == NULL : (PTR_IN(OLD(*out), *out, OLD(*out) + 
 
 /* one base-128 arc: at most 5 octets, value fits 32 bits, at least one octet consumed */
 static int asn1_oid_node_from_base128(uint32_t *a, const uint8_t **in, size_t *inlen)
-REQUIRES(W_OK(a, sizeof(*a)) && W_OK(in, sizeof(*in)) && W_OK(inlen, sizeof(*inlen)) && *in != NULL && R_OK(*in, *inlen))
+REQUIRES(WR_OK(a, sizeof(*a)) && WR_OK(in, sizeof(*in)) && WR_OK(inlen, sizeof(*inlen)) && *in != NULL && RD_OK(*in, *inlen))
 ASSIGNS(*a, *in, *inlen)
 ENSURES(RET == 1 || RET == -1)
 ENSURES(RET == 1 IMPLIES DER_RD_ADV(in, inlen) && DER_CONSUMED(inlen) >= 1 && DER_CONSUMED(inlen) <= 5)
 ;
 
 int asn1_object_identifier_to_octets(const uint32_t *nodes, size_t nodes_cnt, uint8_t *out, size_t *outlen)
-REQUIRES(W_OK(outlen, sizeof(*outlen)) && nodes_cnt <= 64 && (nodes == NULL || R_OK(nodes, nodes_cnt * sizeof(uint32_t))))
+REQUIRES(WR_OK(outlen, sizeof(*outlen)) && nodes_cnt <= 64 && (nodes == NULL || RD_OK(nodes, nodes_cnt * sizeof(uint32_t))))
 /* capacity taken from the only in-library caller: uint8_t octets[ASN1_OID_MAX_OCTETS] */
-REQUIRES(out == NULL || W_OK(out, ASN1_OID_MAX_OCTETS))
+REQUIRES(out == NULL || WR_OK(out, ASN1_OID_MAX_OCTETS))
 ASSIGNS(*outlen; out != NULL: OBJ_UPTO(out, ASN1_OID_MAX_OCTETS))
 ENSURES(RET == 1 || RET == -1)
 ENSURES((RET == 1) == (nodes != NULL && nodes_cnt >= ASN1_OID_MIN_NODES && nodes_cnt <= ASN1_OID_MAX_NODES))
@@ -295,8 +295,8 @@ ENSURES(RET == 1 IMPLIES *outlen >= 1 && *outlen <= ASN1_OID_MAX_OCTETS)
 
 /* C06: never more than ASN1_OID_MAX_NODES arcs are written to nodes[]; C14: count in [2, 32] */
 int asn1_object_identifier_from_octets(uint32_t *nodes, size_t *nodes_cnt, const uint8_t *in, size_t inlen)
-REQUIRES(W_OK(nodes_cnt, sizeof(*nodes_cnt)) && (nodes == NULL || W_OK(nodes, ASN1_OID_MAX_NODES * sizeof(uint32_t))))
-REQUIRES(in != NULL && R_OK(in, inlen) && inlen <= (size_t)INT_MAX)
+REQUIRES(WR_OK(nodes_cnt, sizeof(*nodes_cnt)) && (nodes == NULL || WR_OK(nodes, ASN1_OID_MAX_NODES * sizeof(uint32_t))))
+REQUIRES(in != NULL && RD_OK(in, inlen) && inlen <= (size_t)INT_MAX)
 ASSIGNS(*nodes_cnt; nodes != NULL: OBJ_UPTO((uint8_t *)nodes, ASN1_OID_MAX_NODES * sizeof(uint32_t)))
 ENSURES(RET == 1 || RET == -1)
 ENSURES(RET == 1 IMPLIES *nodes_cnt >= ASN1_OID_MIN_NODES && *nodes_cnt <= ASN1_OID_MAX_NODES)
@@ -304,7 +304,7 @@ ENSURES(inlen == 0 IMPLIES RET == -1)
 ;
 
 int asn1_object_identifier_to_der_ex(int tag, const uint32_t *nodes, size_t nodes_cnt, uint8_t **out, size_t *outlen)
-REQUIRES(nodes_cnt <= 64 && (nodes == NULL || R_OK(nodes, nodes_cnt * sizeof(uint32_t))) && DER_WR_REQ(out, outlen, 2 + ASN1_OID_MAX_OCTETS))
+REQUIRES(nodes_cnt <= 64 && (nodes == NULL || RD_OK(nodes, nodes_cnt * sizeof(uint32_t))) && DER_WR_REQ(out, outlen, 2 + ASN1_OID_MAX_OCTETS))
 ASSIGNS(*outlen; out != NULL: *out; out != NULL && *out != NULL: OBJ_UPTO(*out, 2 + ASN1_OID_MAX_OCTETS))
 ENSURES(RET == 1 || RET == 0 || RET == -1)
 ENSURES(RET == 1 IMPLIES *outlen - OLD(*outlen) >= 3 && *outlen - OLD(*outlen) <= 2 + ASN1_OID_MAX_OCTETS)
@@ -314,7 +314,7 @@ ENSURES(RET != 1 IMPLIES DER_WR_SAME(out, outlen))
 ;
 
 int asn1_object_identifier_from_der_ex(int tag, uint32_t *nodes, size_t *nodes_cnt, const uint8_t **in, size_t *inlen)
-REQUIRES(W_OK(nodes_cnt, sizeof(*nodes_cnt)) && W_OK(nodes, ASN1_OID_MAX_NODES * sizeof(uint32_t)) && DER_RD_REQ(in, inlen))
+REQUIRES(WR_OK(nodes_cnt, sizeof(*nodes_cnt)) && WR_OK(nodes, ASN1_OID_MAX_NODES * sizeof(uint32_t)) && DER_RD_REQ(in, inlen))
 ASSIGNS(*nodes_cnt, OBJ_UPTO((uint8_t *)nodes, ASN1_OID_MAX_NODES * sizeof(uint32_t)), *in, *inlen)
 ENSURES(RET == 1 || RET == 0 || RET == -1)
 ENSURES(RET == 0 IMPLIES DER_RD_SAME(in, inlen) && *nodes_cnt == 0)
@@ -324,8 +324,8 @@ ENSURES(RET == 1 IMPLIES DER_RD_ADV(in, inlen) && DER_CONSUMED(inlen) >= 3
 
 int asn1_oid_info_from_der_ex(const ASN1_OID_INFO **info, uint32_t *nodes, size_t *nodes_cnt,
 	const ASN1_OID_INFO *infos, size_t infos_cnt, const uint8_t **in, size_t *inlen)
-REQUIRES(W_OK(info, sizeof(*info)) && W_OK(nodes_cnt, sizeof(*nodes_cnt)) && W_OK(nodes, ASN1_OID_MAX_NODES * sizeof(uint32_t)) && DER_RD_REQ(in, inlen))
-REQUIRES(infos_cnt <= 64 && R_OK(infos, infos_cnt * sizeof(ASN1_OID_INFO)))
+REQUIRES(WR_OK(info, sizeof(*info)) && WR_OK(nodes_cnt, sizeof(*nodes_cnt)) && WR_OK(nodes, ASN1_OID_MAX_NODES * sizeof(uint32_t)) && DER_RD_REQ(in, inlen))
+REQUIRES(infos_cnt <= 64 && RD_OK(infos, infos_cnt * sizeof(ASN1_OID_INFO)))
 ASSIGNS(*info, *nodes_cnt, OBJ_UPTO((uint8_t *)nodes, ASN1_OID_MAX_NODES * sizeof(uint32_t)), *in, *inlen)
 ENSURES(RET == 1 || RET == 0 || RET == -1)
 ENSURES(RET == 0 IMPLIES DER_RD_SAME(in, inlen) && *info == NULL)
@@ -336,7 +336,7 @@ ENSURES(RET == 1 IMPLIES (*info == NULL || (PTR_IN(infos, *info, infos + infos_c
 ;
 
 int asn1_oid_info_from_der(const ASN1_OID_INFO **info, const ASN1_OID_INFO *infos, size_t count, const uint8_t **in, size_t *inlen)
-REQUIRES(W_OK(info, sizeof(*info)) && DER_RD_REQ(in, inlen) && count <= 64 && R_OK(infos, count * sizeof(ASN1_OID_INFO)))
+REQUIRES(WR_OK(info, sizeof(*info)) && DER_RD_REQ(in, inlen) && count <= 64 && RD_OK(infos, count * sizeof(ASN1_OID_INFO)))
 ASSIGNS(*info, *in, *inlen)
 ENSURES(RET == 1 || RET == 0 || RET == -1)
 ENSURES(RET == 0 IMPLIES DER_RD_SAME(in, inlen) && *info == NULL)
@@ -346,7 +346,6 @@ ENSURES(RET == 1 IMPLIES DER_RD_ADV(in, inlen) && DER_CONSUMED(inlen) >= 3
 
 /* ------------------------------------------------------------------ character strings */
 #ifdef VERIF_CBMC
-size_t verif_gk;   /* ghost index (P-GIDX); declared extern by the guarded gmssl/verif.h, never assigned by code */
 #define G_sk verif_gk
 /* RFC 3629 structure of the UTF-8 sequence starting at p with n bytes available (lead byte class + 10xxxxxx continuations) */
 #define UTF8_LEN(b)  (((b) & 0x80) == 0x00 ? 1 : (((b) & 0xe0) == 0xc0 ? 2 : (((b) & 0xf0) == 0xe0 ? 3 : (((b) & 0xf8) == 0xf0 ? 4 : 0))))
@@ -357,7 +356,7 @@ size_t verif_gk;   /* ghost index (P-GIDX); declared extern by the guarded gmssl
 /* one UTF-8 character: accepted iff the lead byte announces 1..4 bytes, they are available, and every
    following byte is a continuation byte 10xxxxxx (C14: "every valid UTF-8 string") */
 static int asn1_utf8char_from_bytes(uint32_t *c, const uint8_t **pin, size_t *pinlen)
-REQUIRES(W_OK(c, sizeof(*c)) && W_OK(pin, sizeof(*pin)) && W_OK(pinlen, sizeof(*pinlen)) && R_OK(*pin, *pinlen))
+REQUIRES(WR_OK(c, sizeof(*c)) && WR_OK(pin, sizeof(*pin)) && WR_OK(pinlen, sizeof(*pinlen)) && RD_OK(*pin, *pinlen))
 ASSIGNS(*c, *pin, *pinlen)
 ENSURES(RET == 1 || RET == 0 || RET == -1)
 ENSURES(RET == 0 IMPLIES OLD(*pinlen) == 0)
@@ -373,14 +372,14 @@ ENSURES((OLD(*pinlen) >= 1 && UTF8_LEN(OLD(*pin)[0]) >= 1 && OLD(*pinlen) >= (si
 ;
 
 int asn1_string_is_utf8_string(const char *a, size_t alen)
-REQUIRES(alen <= (size_t)INT_MAX && (a == NULL || R_OK(a, alen)))
+REQUIRES(alen <= (size_t)INT_MAX && (a == NULL || RD_OK(a, alen)))
 ASSIGNS()
 ENSURES(RET == 1 || RET == 0)
 ENSURES(RET == 1 IMPLIES a != NULL && alen > 0)
 ;
 
 int asn1_string_is_printable_string(const char *a, size_t alen)
-REQUIRES(alen <= (size_t)INT_MAX && R_OK(a, alen))
+REQUIRES(alen <= (size_t)INT_MAX && RD_OK(a, alen))
 ASSIGNS()
 ENSURES(RET == 1 || RET == 0)
 #ifdef ASN1_STRING_CONTENT_POST   /* only where the function is enforced: as an assumed clause it blew the solver up (measured) */
@@ -389,7 +388,7 @@ ENSURES((RET == 1 && G_sk < alen) IMPLIES IS_PRINTABLE(a[G_sk]))
 ;
 
 int asn1_string_is_ia5_string(const char *a, size_t alen)
-REQUIRES(alen <= (size_t)INT_MAX && R_OK(a, alen))
+REQUIRES(alen <= (size_t)INT_MAX && RD_OK(a, alen))
 ASSIGNS()
 ENSURES(RET == 1 || RET == 0)
 ENSURES((RET == 1 && G_sk < alen) IMPLIES (a[G_sk] >= 0))
@@ -397,7 +396,7 @@ ENSURES((RET == 1 && G_sk < alen) IMPLIES (a[G_sk] >= 0))
 
 #define STRING_FROM_DER_CONTRACT(fn) \
 int fn(int tag, const char **a, size_t *alen, const uint8_t **in, size_t *inlen) \
-REQUIRES(W_OK(a, sizeof(*a)) && W_OK(alen, sizeof(*alen)) && DER_RD_REQ(in, inlen)) \
+REQUIRES(WR_OK(a, sizeof(*a)) && WR_OK(alen, sizeof(*alen)) && DER_RD_REQ(in, inlen)) \
 ASSIGNS(*a, *alen, *in, *inlen) \
 ENSURES(RET == 1 || RET == 0 || RET == -1) \
 ENSURES(RET == 0 IMPLIES DER_RD_SAME(in, inlen) && *a == NULL && *alen == 0) \
@@ -410,7 +409,7 @@ STRING_FROM_DER_CONTRACT(asn1_ia5_string_from_der_ex);
 /* ------------------------------------------------------------------ SEQUENCE OF INTEGER, element access */
 /* C06: never more than max_nums values are stored */
 int asn1_sequence_of_int_from_der(int *nums, size_t *nums_cnt, size_t max_nums, const uint8_t **in, size_t *inlen)
-REQUIRES(max_nums <= 1024 && W_OK(nums_cnt, sizeof(*nums_cnt)) && W_OK(nums, max_nums * sizeof(int)) && DER_RD_REQ(in, inlen))
+REQUIRES(max_nums <= 1024 && WR_OK(nums_cnt, sizeof(*nums_cnt)) && WR_OK(nums, max_nums * sizeof(int)) && DER_RD_REQ(in, inlen))
 ASSIGNS(*nums_cnt, OBJ_UPTO((uint8_t *)nums, max_nums * sizeof(int)), *in, *inlen)
 ENSURES(RET == 1 || RET == 0 || RET == -1)
 ENSURES(RET == 0 IMPLIES DER_RD_SAME(in, inlen))
@@ -418,14 +417,14 @@ ENSURES(RET == 1 IMPLIES DER_RD_ADV(in, inlen) && *nums_cnt <= max_nums)
 ;
 
 int asn1_types_get_count(const uint8_t *d, size_t dlen, int tag, size_t *cnt)
-REQUIRES(dlen <= (size_t)INT_MAX && d != NULL && R_OK(d, dlen) && W_OK(cnt, sizeof(*cnt)))
+REQUIRES(dlen <= (size_t)INT_MAX && d != NULL && RD_OK(d, dlen) && WR_OK(cnt, sizeof(*cnt)))
 ASSIGNS(*cnt)
 ENSURES(RET == 1 || RET == -1)
 ENSURES(RET == 1 IMPLIES *cnt <= dlen / 2)
 ;
 
 int asn1_types_get_item_by_index(const uint8_t *d, size_t dlen, int tag, int index, const uint8_t **item_d, size_t *item_dlen)
-REQUIRES(dlen <= (size_t)INT_MAX && d != NULL && R_OK(d, dlen) && W_OK(item_d, sizeof(*item_d)) && W_OK(item_dlen, sizeof(*item_dlen)))
+REQUIRES(dlen <= (size_t)INT_MAX && d != NULL && RD_OK(d, dlen) && WR_OK(item_d, sizeof(*item_d)) && WR_OK(item_dlen, sizeof(*item_dlen)))
 ASSIGNS(*item_d, *item_dlen)
 ENSURES(RET == 1 || RET == -1)
 /* whatever slice is returned lies inside [d, d+dlen) */
@@ -442,7 +441,7 @@ ENSURES(1)
 /* diagnostics printer reached from asn1_oid_info_from_der on the unknown-OID path */
 int asn1_object_identifier_print(FILE *fp, int format, int indent, const char *label, const char *name,
 	const uint32_t *nodes, size_t nodes_cnt)
-REQUIRES(nodes == NULL || (nodes_cnt >= 1 && nodes_cnt <= ASN1_OID_MAX_NODES && R_OK(nodes, nodes_cnt * sizeof(uint32_t))))
+REQUIRES(nodes == NULL || (nodes_cnt >= 1 && nodes_cnt <= ASN1_OID_MAX_NODES && RD_OK(nodes, nodes_cnt * sizeof(uint32_t))))
 ASSIGNS()
 ENSURES(RET == 1)
 ;
